@@ -34,6 +34,8 @@ Value& ATAN2Expression::value(Context & ctx) const
   Value& a0 = _args[0]->value(ctx);
   Value& a1 = _args[1]->value(ctx);
   Value v(Value::type_numeric);
+  /* a typed null has a major type but no payload */
+  const bool isnull = a0.isNull() || a1.isNull();
 
   switch (a0.type().major())
   {
@@ -45,10 +47,12 @@ Value& ATAN2Expression::value(Context & ctx) const
     case Type::NO_TYPE:
       break;
     case Type::INTEGER:
-      v = Value(Numeric(std::atan2((double)*a0.integer(), (double)*a1.integer())));
+      if (!isnull)
+        v = Value(Numeric(std::atan2((double)*a0.integer(), (double)*a1.integer())));
       break;
     case Type::NUMERIC:
-      v = Value(Numeric(std::atan2((double)*a0.integer(), *a1.numeric())));
+      if (!isnull)
+        v = Value(Numeric(std::atan2((double)*a0.integer(), *a1.numeric())));
       break;
     default:
       throw RuntimeError(EXC_RT_FUNC_ARG_TYPE_S, KEYWORDS[oper]);
@@ -60,10 +64,12 @@ Value& ATAN2Expression::value(Context & ctx) const
     case Type::NO_TYPE:
       break;
     case Type::INTEGER:
-      v = Value(Numeric(std::atan2(*a0.numeric(), (double)*a1.integer())));
+      if (!isnull)
+        v = Value(Numeric(std::atan2(*a0.numeric(), (double)*a1.integer())));
       break;
     case Type::NUMERIC:
-      v = Value(Numeric(std::atan2(*a0.numeric(), *a1.numeric())));
+      if (!isnull)
+        v = Value(Numeric(std::atan2(*a0.numeric(), *a1.numeric())));
       break;
     default:
       throw RuntimeError(EXC_RT_FUNC_ARG_TYPE_S, KEYWORDS[oper]);
